@@ -1982,7 +1982,7 @@ func promotionRange(p *core.Program, info *types.Info, rs *ast.RangeStmt) (bool,
 					reads := false
 					ast.Inspect(hd.Body, func(m ast.Node) bool {
 						if s2, isS := m.(*ast.SelectorExpr); isS {
-							if fv := core.FieldOf(p.Info(hd), s2); fv != nil && fv.Name() == "fieldMap" {
+							if fv := core.FieldOf(p.Info(hd), s2); fv != nil && (fv.Name() == "fieldMap" || fv.Name() == "orderedFields") {
 								reads = true
 							}
 						}
@@ -2033,7 +2033,22 @@ func c15r21(rc *core.RC) {
 				return true
 			})
 			if inner == nil {
-				rc.Unknown(key, rs.Pos(), "no loop over the field map in %s", via.Name.Name)
+				// the function hands out a list of fields that holds no alias at all (structDecoder.orderedFields is
+				// what filterDuplicatedFields kept, in the order of the declarations)
+				lists := false
+				ast.Inspect(via.Body, func(q ast.Node) bool {
+					if s2, isS := q.(*ast.SelectorExpr); isS {
+						if fv := core.FieldOf(info, s2); fv != nil && fv.Name() == "orderedFields" {
+							lists = true
+						}
+					}
+					return true
+				})
+				if lists {
+					rc.OK(key, rs.Pos(), "%s hands out the list of the struct's fields, which holds no alias", via.Name.Name)
+				} else {
+					rc.Unknown(key, rs.Pos(), "no loop over the field map in %s", via.Name.Name)
+				}
 				return true
 			}
 			rs = inner
@@ -2658,6 +2673,9 @@ func c15r26(rc *core.RC) {
 					if f := core.Callee(info, call); f != nil {
 						if hd := p.DeclOf(f); hd != nil {
 							r1, _ := fieldUse("decoder", hd, "fieldMap")
+							if r0, _ := fieldUse("decoder", hd, "orderedFields"); r0 > 0 {
+								r1 = r0
+							}
 							r2, _ := fieldUse("decoder", hd, "ambiguousFields")
 							if r1 > 0 && r2 > 0 {
 								through = f.Name()
@@ -2694,5 +2712,66 @@ func c15r26(rc *core.RC) {
 		} else {
 			rc.Bad(key, sc.Pos(), "the fields a struct drops because their name is ambiguous are not recorded (StructCode.ambiguous assigned in structCode %d time(s)) or not entered into the field map of the struct that embeds it (read in getAnonymousFieldMap %d time(s)): a deeper field of the name is written where encoding/json writes none", w, r)
 		}
+	}
+}
+
+// ---- C15.R27 the fields promoted from an embedded struct come in the order of their declaration ----
+
+// A key that is no field's exact name selects the first field, in the order of the declarations, that matches it
+// case-insensitively. The struct decoder enters the lower-case alias of a name for the first field it meets (first
+// win), so the order in which it meets the fields is the order that counts. Fields promoted from an embedded struct
+// come from that struct's decoder: read out of its field map they come in the order of a Go map, which changes from
+// run to run (struct{ E } with E{ Id; ID } gave the key "id" to one or the other). Obligation: no range statement
+// over a structDecoder's fieldMap produces the fields that compileStruct promotes (directly in compileStruct or in
+// the function it ranges over).
+func c15r27(rc *core.RC) {
+	p := rc.P
+	fd := p.Func("decoder", "compileStruct")
+	key := "decoder.compileStruct/promoted-fields-in-declaration-order"
+	if fd == nil || fd.Body == nil {
+		rc.Unknown(key, token.NoPos, "compileStruct not found")
+		return
+	}
+	rc.Touch(p.FuncName(fd))
+	info := p.Info(fd)
+	n := 0
+	var overMap ast.Node
+	where := ""
+	ast.Inspect(fd.Body, func(m ast.Node) bool {
+		rs, ok := m.(*ast.RangeStmt)
+		if !ok {
+			return true
+		}
+		isProm, via := promotionRange(p, info, rs)
+		if !isProm {
+			return true
+		}
+		n++
+		if via == nil {
+			if overMap == nil {
+				overMap, where = rs, "compileStruct"
+			}
+			return true
+		}
+		vinfo := p.Info(via)
+		ast.Inspect(via.Body, func(q ast.Node) bool {
+			if r2, isR := q.(*ast.RangeStmt); isR {
+				if t := vinfo.TypeOf(r2.X); t != nil {
+					if _, isMap := t.Underlying().(*types.Map); isMap && overMap == nil {
+						overMap, where = r2, via.Name.Name
+					}
+				}
+			}
+			return true
+		})
+		return true
+	})
+	switch {
+	case n < 2:
+		rc.Unknown(key, fd.Pos(), "found %d loops that promote the fields of an embedded struct, fewer than the 2 confirmed by hand", n)
+	case overMap != nil:
+		rc.Bad(key, overMap.Pos(), "the fields promoted from an embedded struct are read out of a map (in %s): their order changes from run to run, and with it the field a key selects case-insensitively when two promoted names differ only in case", where)
+	default:
+		rc.OK(key, fd.Pos(), "the promoted fields come from a list kept in the order of the declarations")
 	}
 }
